@@ -310,8 +310,8 @@ def whole_model_tie(rows):
             if not g or "valid" not in g[0]:
                 continue
             unres = any(t.startswith(("unresolvedReferences", "invalidRef")) for t in rule_tags(g[0].get("errors", [])))
-            if unres and m.get("localRefsOk"):
-                continue
+            if unres == bool(m.get("localRefsOk")):
+                continue   # the oracle (go-openapi/spec's resolver) and the driver's local resolution disagree on this document
             n += 1
             w = m["whole"][key]
             if w["panic"] or bool(w["valid"]) != bool(g[0]["valid"]) or not w["warnsEq"]:
